@@ -7,7 +7,9 @@ spec/Intentions.tla (+ IntentionsMC, IntentionsTrace), harness/cmd/h-intent.
      decision function for EVERY admissible list order and both routes, permutations fold to the same set.
   2. TLC prints every write HISTORY (history mode: no VIEW, so every permutation of every set, plus
      update/delete histories); histories with the same multiset of writes form a group.
-  3. h-intent applies every history to a fresh real state.Store in three representations and records
+     Identity-addressed histories (legacy UUID API: create, update BY ID that may move source/destination between
+     exact and wildcard, remove by ID) are generated for the legacy table and for IntentionMutation by LegacyID.
+  3. h-intent applies every history to a fresh real state.Store in five representations and records
      Store.Intentions / IntentionMatch / IntentionMatchOne / IntentionDecision / AuthorizeIntentionTarget.
   4. TLC (IntentionsTrace) computes the set each history denotes and judges every recorded answer and the
      order-independence of the answers.
@@ -34,7 +36,8 @@ DOC = {
     "decision": "IntentionDecision (both routes, both defaults, AllowPermissions on/off) = action of the single most "
                 "specific matching intention, else the default; HasPermissions/HasExact/DefaultAllow as the spec says",
     "authorize": "connect.AuthorizeIntentionTarget: match = wildcard-aware name+peer match, auth = action is allow",
-    "write-accepted": "every write the representation can hold is accepted by the store",
+    "write-accepted": "every write the representation can hold is accepted by the store; an identity-addressed write (create / update by ID / "
+                      "remove by ID) is accepted exactly when the spec accepts it (unknown identity or key taken = refused, nothing changes)",
     "order-independent": "all histories of a group that denote the same set give byte-identical answers (list orders included)",
 }
 
@@ -42,8 +45,11 @@ GEN = {
     "quick": [
         dict(name="edit2", Names=["a", "b"], MaxN=2, MaxOps=2, Mode="edit"),
         dict(name="perm3", Names=["a"], MaxN=3, MaxOps=3, Mode="perm"),
+        dict(name="id2", Names=["a", "b"], MaxN=2, MaxOps=2, Mode="edit", Reps=["legacy-id", "ce-legacyid"]),
     ],
     "thorough": [
+        dict(name="id2", Names=["a", "b"], MaxN=2, MaxOps=2, Mode="edit", Reps=["legacy-id", "ce-legacyid"]),
+        dict(name="id3", Names=["a"], MaxN=2, MaxOps=3, Mode="edit", Reps=["legacy-id", "ce-legacyid"]),
         dict(name="edit2", Names=["a", "b"], MaxN=2, MaxOps=2, Mode="edit"),
         dict(name="edit3", Names=["a"], MaxN=3, MaxOps=3, Mode="edit"),
         dict(name="perm3", Names=["a", "b"], MaxN=3, MaxOps=3, Mode="perm"),
@@ -140,7 +146,8 @@ def run(tier):
                                   timeout=3000, coverage=(tier == "thorough"), workers=min(8, vf.NCPU))]
         for g in GEN[tier]:
             jobs.append(lambda g=g: vf.tlc_gen("IntentionsMC", "gen.cfg", timeout=3000, heap="8g", files={"gen.cfg": cfg_text(
-                "Intentions_gen.cfg", Names=g["Names"], MaxN=g["MaxN"], MaxOps=g["MaxOps"], Mode=g["Mode"])}))
+                "Intentions_gen.cfg", Names=g["Names"], MaxN=g["MaxN"], MaxOps=g["MaxOps"], Mode=g["Mode"],
+                Reps=g.get("Reps", ["ce-entry", "ce-upsert", "legacy"]))}))
         res = par(jobs)
         mc = res[0]
         if tier == "thorough":
